@@ -4,7 +4,7 @@ C03 — history level: across a whole history no two ciphertexts (returned in re
 the metastore) share a nonce, and no two records have their payloads under the same data key.
 -/
 set_option linter.unusedVariables false
-namespace AsherahVerif.Env
+namespace AsherahVerif.Env.Res
 
 def outCts : Out → List Ct
   | .record d => drrCts d
@@ -280,4 +280,4 @@ theorem KeysInv.runOps {outs : List Out} {w : World} (h : KeysInv outs w) (ops :
 theorem KeysInv.init (t : Int) : KeysInv [] (World.init t) := by
   constructor <;> simp [outDataKeys]
 
-end AsherahVerif.Env
+end AsherahVerif.Env.Res
